@@ -83,11 +83,14 @@ def digest(obj):
 def pool_problems(kind):
     """4 problems of different sizes / ranks (float arrays); kind selects orientation"""
     rng = np.random.default_rng(12345)
-    if kind == "square-system":      # Q-GMRES: (A, b)
+    if kind == "square-system":      # Q-GMRES: (A, b); problems 3 and 4 drive the internal fault paths
         out = []
         for n in (2, 5, 3, 6):
             A = rng.standard_normal((n, n, 4)) + 3 * np.eye(n)[:, :, None] * np.array([1.0, 0, 0, 0])
             out.append((A, rng.standard_normal((n, 1, 4))))
+        r = rng.standard_normal((1, 3, 4))
+        out[2] = (np.concatenate([r, 2 * r, 4 * r], axis=0), out[2][1])    # rank 1: LU preconditioner hits a zero pivot
+        out[3] = (out[3][0], out[3][1], "sparse")                           # sparse storage: LU rejects it (silent fallback)
         return out
     if kind == "tall":               # full column rank, m >= n
         return [(rng.standard_normal(s + (4,)),) for s in ((2, 2), (5, 3), (3, 3), (6, 4))]
@@ -143,8 +146,16 @@ def _same_dict(a, b):
     return True
 
 
+def _sparse(F):
+    u = lib().utils
+    return u.SparseQuaternionMatrix(*[sparse.csr_matrix(F[..., c]) for c in range(4)], F.shape[:2])
+
+
 def _call(obj, method, prob, seed):
-    args = [q_from_float(a) for a in prob]
+    if len(prob) == 3 and prob[2] == "sparse":
+        args = [_sparse(prob[0]), q_from_float(prob[1])]
+    else:
+        args = [q_from_float(a) for a in prob]
     before = [sha(a) for a in args]
     np.random.seed(seed)
     with contextlib.redirect_stdout(io.StringIO()):
